@@ -22,7 +22,15 @@ pub trait NamingContext {
 
     /// Apply serde naming convention transformations
     fn apply_naming_convention(&self, field_name: &str, convention: RenameRule) -> String {
-        convention.apply_to_field(field_name)
+        match convention {
+            // RenameRule::apply_to_field slices off the first *byte* for camelCase and panics
+            // when the PascalCase form is empty (`_`, `__`) or starts with a multi-byte
+            // character (`größe`, `名前`); lower-case the first character ourselves.
+            RenameRule::CamelCase => {
+                lowercase_first_char(&RenameRule::PascalCase.apply_to_field(field_name))
+            }
+            _ => convention.apply_to_field(field_name),
+        }
     }
 
     /// Compute the serialized name for a field based on serde attributes
@@ -68,7 +76,11 @@ pub trait NamingContext {
         if let Some(rename) = variant_rename {
             rename.to_string()
         } else if let Some(convention) = enum_rename_all {
-            convention.apply_to_variant(variant_name)
+            match convention {
+                // same byte-slicing panic as in apply_to_field
+                RenameRule::CamelCase => lowercase_first_char(variant_name),
+                _ => convention.apply_to_variant(variant_name),
+            }
         } else {
             variant_name.to_string()
         }
@@ -119,6 +131,16 @@ pub trait NamingContext {
         // Always use TypeScript conventions (PascalCase for types)
         // Command-level rename_all doesn't affect the type name
         self.apply_naming_convention(name, RenameRule::PascalCase)
+    }
+}
+
+/// ASCII-lowercase the first character of `name` (serde's camelCase step) without assuming
+/// that the first character is a single byte
+fn lowercase_first_char(name: &str) -> String {
+    let mut chars = name.chars();
+    match chars.next() {
+        Some(first) => first.to_ascii_lowercase().to_string() + chars.as_str(),
+        None => String::new(),
     }
 }
 
